@@ -305,6 +305,34 @@ Proof.
   apply Nat.eqb_eq in H2. auto.
 Qed.
 
+(* any number of calls, one after the other, on a record that the pool keeps recycling *)
+Lemma ledger_run_app : forall a b s,
+    ledger_run s (a ++ b) = match ledger_run s a with Some s' => ledger_run s' b | None => None end.
+Proof.
+  induction a as [|e a IH]; intros b s; simpl; [reflexivity|].
+  destruct (ledger_step s e); [apply IH|reflexivity].
+Qed.
+
+Lemma job_ledger_closed_all :
+  forallb (fun w => forallb ledger_closed (job_runs switch_body proxy_tail end_action_events w)) wrappers = true.
+Proof. vm_compute. reflexivity. Qed.
+
+Lemma job_ledger_closed : forall wrp, In wrp wrappers -> forall tr, job_exec wrp tr -> ledger_run LFreeSt tr = Some LFreeSt.
+Proof.
+  intros wrp Hin tr Hex. pose proof (proj1 (forallb_forall _ _) job_ledger_closed_all wrp Hin) as H. cbv beta in H.
+  assert (ledger_closed tr = true) as C.
+  { apply (proj1 (forallb_forall _ _) H). unfold job_runs. apply runs_complete; [exact Hex|lia]. }
+  unfold ledger_closed in C. destruct (ledger_run LFreeSt tr) as [[|]|]; congruence.
+Qed.
+
+Lemma sequence_ledger_ok_lemma :
+  forall trs, Forall (fun tr => exists wrp, In wrp wrappers /\ job_exec wrp tr) trs ->
+              ledger_run LFreeSt (concat trs) = Some LFreeSt.
+Proof.
+  induction 1 as [|tr trs [wrp [Hin Hex]] _ IH]; simpl; [reflexivity|].
+  rewrite ledger_run_app. rewrite (job_ledger_closed wrp Hin tr Hex). exact IH.
+Qed.
+
 From Coq Require Import String.
 (* the pre-fix protocol (proxy frees every job, c697d62 reverted): a run with two frees exists *)
 Lemma proxy_frees_all_refuted_lemma :
@@ -333,3 +361,9 @@ Proof.
                  | eapply ex_task; [vm_compute; reflexivity|]
                  | eapply ex_proxy; [vm_compute; reflexivity|] ])).
 Qed.
+
+(* non-vacuity of [transparent]'s hypotheses: a pread with a > 4 GiB offset and a negative descriptor are in range *)
+Example transparent_hyps_inhabited :
+  Forall2 in_range [TI32; TPtr; TU64; TI64] [5; 140737488355000; 10; 4294967303]%Z /\
+  Forall2 in_range [TI32; TPtr; TU64] [-1; 0; 0]%Z /\ in_range TI64 (-1)%Z.
+Proof. repeat split; repeat constructor; vm_compute; intuition congruence. Qed.
